@@ -1,6 +1,514 @@
-//! C17 (stub)
+//! C17 — radix strings: canonical output, exact parse, overflow always reported.
+//!
+//! Oracle: `BigUint::to_str_radix` for the canonical numeral; `denote` below for the documented input
+//! grammar (optional leading '+', digits 0-9a-zA-Z below the radix, underscores between digits but
+//! not first or last; "" and "+" are empty, anything else is an invalid digit). A numeral whose
+//! value does not fit yields the documented size error — never a wrapped value. Radix outside
+//! 2..=36 is a documented panic.
+
 use super::prelude::*;
+use crypto_bigint::DecodeError;
+
+// ---------------------------------------------------------------- oracle
+
+/// What a string denotes under the documented grammar.
+#[derive(Clone, PartialEq, Debug)]
+enum Denoted {
+    Value(BigUint),
+    Empty,
+    Invalid,
+}
+
+fn denote(s: &str, radix: u32) -> Denoted {
+    let b = s.as_bytes();
+    let d = b.strip_prefix(b"+").unwrap_or(b);
+    if d.is_empty() {
+        return Denoted::Empty;
+    }
+    if d[0] == b'_' || d[d.len() - 1] == b'_' {
+        return Denoted::Invalid;
+    }
+    let mut v = BigUint::zero();
+    for &ch in d {
+        if ch == b'_' {
+            continue;
+        }
+        match (ch as char).to_digit(36) {
+            Some(x) if ch < 0x80 && x < radix => v = v * radix + x,
+            _ => return Denoted::Invalid,
+        }
+    }
+    Denoted::Value(v)
+}
+
+/// Expected result of parsing into a fixed width of `bits` bits.
+fn expect_fixed(s: &str, radix: u32, bits: u32) -> Result<BigUint, String> {
+    match denote(s, radix) {
+        Denoted::Value(v) if v.bits() <= bits as u64 => Ok(v),
+        Denoted::Value(_) => Err("InputSize".into()),
+        Denoted::Empty => Err("Empty".into()),
+        Denoted::Invalid => Err("InvalidDigit".into()),
+    }
+}
+
+fn res_u<const L: usize>(r: Result<Uint<L>, DecodeError>) -> Result<BigUint, String> {
+    r.map(|v| ub(&v)).map_err(|e| format!("{:?}", e))
+}
+
+fn res_x(r: Result<BoxedUint, DecodeError>) -> Result<BigUint, String> {
+    r.map(|v| xb(&v)).map_err(|e| format!("{:?}", e))
+}
+
+/// With a precision: the two "too large" errors are not distinguished (the documentation ties
+/// InputSize to a byte length a string does not have); Empty / InvalidDigit stay exact.
+fn res_xp(r: Result<BoxedUint, DecodeError>) -> Result<(BigUint, usize), String> {
+    r.map(|v| (xb(&v), v.nlimbs())).map_err(|e| match e {
+        DecodeError::InputSize | DecodeError::Precision => "InputSize|Precision".to_string(),
+        e => format!("{:?}", e),
+    })
+}
+
+fn expect_prec(s: &str, radix: u32, prec: u32) -> Result<(BigUint, usize), String> {
+    match denote(s, radix) {
+        Denoted::Value(v) if v.bits() <= prec as u64 => Ok((v, (prec.div_ceil(64) as usize).max(1))),
+        Denoted::Value(_) => Err("InputSize|Precision".into()),
+        Denoted::Empty => Err("Empty".into()),
+        Denoted::Invalid => Err("InvalidDigit".into()),
+    }
+}
+
+// ---------------------------------------------------------------- inputs
+
+/// 0, 1, radix^j and radix^j -+ 1 for all j that fit (every `step`-th j), MAX, MAX - 1, 2^(bits-1),
+/// some edges and random values.
+fn radix_values(c: &mut Ctx, limbs: usize, radix: u32, step: usize, n_edges: usize, n_rnd: usize) -> Vec<BigUint> {
+    let bits = 64 * limbs as u32;
+    let max = mask(bits);
+    let mut v = vec![BigUint::zero(), BigUint::one(), max.clone(), &max - 1u32, pow2(bits - 1), pow2(bits - 1) - 1u32];
+    let mut p = BigUint::from(radix);
+    let mut j = 1usize;
+    let mut last = p.clone();
+    while p <= max {
+        if j % step == 0 {
+            v.push(p.clone());
+            v.push(&p - 1u32);
+            v.push(&p + 1u32);
+        }
+        last = p.clone();
+        p *= radix;
+        j += 1;
+    }
+    // the largest power that fits, always
+    v.push(last.clone());
+    v.push(&last - 1u32);
+    // a full batch of digits per limb (radix^ilog(2^64)) and its multiples
+    let per_limb = BigUint::from(radix).pow(u64::MAX.ilog(radix as u64));
+    for k in [1u32, 2, 3] {
+        let q = per_limb.pow(k);
+        if q <= max {
+            v.push(q.clone());
+            v.push(&q - 1u32);
+        }
+    }
+    if n_edges > 0 {
+        v.extend(c.edges(limbs, n_edges));
+    }
+    for _ in 0..n_rnd {
+        v.push(c.rnd(limbs));
+    }
+    v.retain(|x| *x <= max);
+    v
+}
+
+/// Insert `n` underscores at interior positions (never first or last; may be adjacent).
+fn with_underscores(c: &mut Ctx, s: &str, n: usize) -> String {
+    let mut b: Vec<u8> = s.as_bytes().to_vec();
+    if b.len() < 2 {
+        return s.to_string();
+    }
+    for _ in 0..n {
+        let pos = 1 + c.below(b.len() - 1);
+        b.insert(pos, b'_');
+    }
+    String::from_utf8(b).unwrap()
+}
+
+fn mixed_case(c: &mut Ctx, s: &str) -> String {
+    s.chars().map(|ch| if c.coin() { ch.to_ascii_uppercase() } else { ch }).collect()
+}
+
+/// Accepted spellings of a canonical numeral.
+fn spellings(c: &mut Ctx, canon: &str) -> Vec<String> {
+    let mut v = vec![
+        canon.to_string(),
+        format!("+{}", canon),
+        format!("0{}", canon),
+        format!("+000{}", canon),
+        format!("{}{}", "0".repeat(70), canon),
+        canon.to_uppercase(),
+        mixed_case(c, canon),
+        format!("0_{}", canon),
+        format!("+0__0_{}", canon),
+    ];
+    let n = 1 + c.below(4);
+    v.push(with_underscores(c, canon, n));
+    let u = with_underscores(c, &canon.to_uppercase(), 2);
+    v.push(format!("+00{}", u));
+    if canon.len() >= 2 {
+        // doubled underscore between two digits, underscore after every digit
+        v.push(format!("{}__{}", &canon[..1], &canon[1..]));
+        let every: Vec<String> = canon.chars().map(|ch| ch.to_string()).collect();
+        v.push(every.join("_"));
+    }
+    v
+}
+
+// ---------------------------------------------------------------- Uint
+
+/// to_string_radix_vartime is canonical; every accepted spelling parses back to the same value.
+fn round_trip<const L: usize>(c: &mut Ctx) {
+    let bits = 64 * L as u32;
+    // wide types: few values (the large-divisor recursion is expensive), narrow: all powers
+    let (step, n_edges, n_rnd) = match L {
+        1..=4 => (1, (c.cap / 70).clamp(8, 64), (c.iters / 35).max(4)),
+        5..=16 => (7, (c.cap / 400).clamp(4, 12), (c.iters / 200).max(3)),
+        _ => (97, 0, 2),
+    };
+    for radix in 2..=36u32 {
+        for a in radix_values(c, L, radix, step, n_edges, n_rnd) {
+            if c.done() {
+                return;
+            }
+            let x = bu::<L>(&a);
+            let canon = a.to_str_radix(radix);
+            if !check!(c, call(|| x.to_string_radix_vartime(radix)), canon.clone(); a, radix) {
+                continue;
+            }
+            let all = if L <= 16 { spellings(c, &canon) } else { vec![canon.clone(), format!("+0_{}", canon.to_uppercase())] };
+            for s in all {
+                debug_assert_eq!(expect_fixed(&s, radix, bits), Ok(a.clone()));
+                check!(c, call(|| res_u(Uint::<L>::from_str_radix_vartime(&s, radix))), Ok(a.clone()); s, radix);
+            }
+            check!(c, call(|| res_u(<Uint<L> as num_traits::Num>::from_str_radix(&canon, radix))), Ok(a.clone()); canon, radix);
+        }
+    }
+}
+
+/// Strings that are not (accepted spellings of) numerals, and short strings over the whole
+/// alphabet: documented value or documented error.
+fn grammar<const L: usize>(c: &mut Ctx) {
+    let bits = 64 * L as u32;
+    let fixed = [
+        "", "+", "_", "+_", "__", "++", "+-", "-", "-1", "+-1", "-0", "++1", "+1+", "1+", "_1", "1_", "+_1", "+1_", "_1_", "__1", "1__",
+        "0_", "_0", "+0_", "0", "+0", "00", "0_0", "+0_0", "0__0", "1__2", "1_2", "+1_2_3", "1 ", " 1", "1 2", "1.0", "1,0", "0x10",
+        "0X1f", "0b1", "0o7", "1e3", "\u{e9}", "1\u{e9}", "\u{ff11}", "1\u{0}", "\u{0}", "1\n", "\t1", "z", "Z", "zz", "a", "A", "9", "/", ":",
+        "@", "[", "`", "{", "1/", "1:", "1@", "1[", "1`", "1{", "+z", "0z", "0_z", "z_z", "10", "11", "+11", "0_1_1",
+    ];
+    let alphabet: Vec<char> = "0123456789abcdefghijklmnopqrstuvwxyzABCDEFGHIJKLMNOPQRSTUVWXYZ__++".chars().collect();
+    let odd_chars: Vec<char> = " -./:@[`{~\u{0}\n\u{7f}\u{e9}\u{20ac}".chars().collect();
+    for radix in 2..=36u32 {
+        let mut strs: Vec<String> = fixed.iter().map(|s| s.to_string()).collect();
+        // every single digit character and its neighbours in the code table
+        for b in 0x20u8..0x7f {
+            strs.push((b as char).to_string());
+            strs.push(format!("1{}", b as char));
+            strs.push(format!("{}0", b as char));
+        }
+        // short random strings (too short to overflow one limb: 36^12 < 2^63)
+        for _ in 0..(c.iters / 20).max(8) {
+            let len = 1 + c.below(12);
+            let mut s = String::new();
+            let dirty = c.below(4) == 0;
+            for _ in 0..len {
+                let ch = if dirty && c.below(5) == 0 {
+                    odd_chars[c.below(odd_chars.len())]
+                } else {
+                    // mostly digits valid for this radix
+                    let k = if c.below(8) == 0 { c.below(alphabet.len()) } else { c.below(radix as usize) };
+                    if c.below(16) == 0 { '_' } else { alphabet[k] }
+                };
+                s.push(ch);
+            }
+            if s.len() <= 12 {
+                strs.push(s);
+            }
+        }
+        for s in strs {
+            if c.done() {
+                return;
+            }
+            let exp = expect_fixed(&s, radix, bits);
+            check!(c, call(|| res_u(Uint::<L>::from_str_radix_vartime(&s, radix))), exp.clone(); s, radix);
+            check!(c, call(|| res_u(<Uint<L> as num_traits::Num>::from_str_radix(&s, radix))), exp.clone(); s, radix);
+            // a parsed value re-encodes to the canonical numeral of what the string denotes
+            if let Ok(v) = &exp {
+                let canon = v.to_str_radix(radix);
+                check!(c, call(|| Uint::<L>::from_str_radix_vartime(&s, radix).map(|x| x.to_string_radix_vartime(radix)).ok()), Some(canon); s, radix);
+            }
+        }
+        // a canonical numeral with one character damaged (never long enough to overflow first)
+        for _ in 0..(c.iters / 40).max(4) {
+            if c.done() {
+                return;
+            }
+            let a = c.rnd(L);
+            let canon = a.to_str_radix(radix);
+            let pos = c.below(canon.len());
+            let bad = match c.below(6) {
+                0 => '_',
+                1 => ' ',
+                2 => '-',
+                3 => '+',
+                // the smallest digit that is not a digit of this radix, in either case
+                4 => char::from_digit(radix, 36).unwrap_or('{'),
+                _ => char::from_digit(radix, 36).map(|d| d.to_ascii_uppercase()).unwrap_or('@'),
+            };
+            let s = format!("{}{}{}", &canon[..pos], bad, &canon[pos + 1..]);
+            let exp = expect_fixed(&s, radix, bits);
+            // a '+' or '_' in front can leave a shorter valid numeral: the oracle decides
+            check!(c, call(|| res_u(Uint::<L>::from_str_radix_vartime(&s, radix))), exp; s, radix);
+        }
+    }
+}
+
+/// Values of at least 2^BITS are always reported, 2^BITS - 1 in any spelling is accepted.
+fn overflow<const L: usize>(c: &mut Ctx) {
+    let bits = 64 * L as u32;
+    let max = mask(bits);
+    let top = pow2(bits);
+    for radix in 2..=36u32 {
+        let r = BigUint::from(radix);
+        let mut over: Vec<BigUint> = vec![
+            top.clone(),
+            &top + 1u32,
+            &top + 2u32,
+            &top + &r,
+            &top + (&r - 1u32),
+            &top * &r,
+            &max * &r + (&r - 1u32),
+            &top * 2u32,
+            &top * 2u32 - 1u32,
+            pow2(bits + 1) + 1u32,
+            pow2(bits + 63),
+            pow2(bits + 64),
+            pow2(bits + 64) - 1u32,
+            pow2(bits + 64) + 1u32,
+            pow2(2 * bits),
+            pow2(2 * bits) - 1u32,
+            pow2(2 * bits + 64) + &max,
+            pow2(8 * bits + 17) + 5u32,
+            // value whose low BITS bits look like a small number (a wrapped result would be plausible)
+            &top + 42u32,
+            &top * 3u32 + 7u32,
+            (&top << 64usize) + 9u32,
+        ];
+        // the smallest power of the radix that does not fit, and neighbours; a full extra batch of digits
+        let mut p = BigUint::one();
+        while p <= max {
+            p *= &r;
+        }
+        let per_limb = BigUint::from(radix).pow(u64::MAX.ilog(radix as u64));
+        over.extend([p.clone(), &p - 1u32, &p + 1u32, &p * &r, &p * &per_limb, &max * &per_limb, &top * &per_limb - 1u32]);
+        for _ in 0..(c.iters / 40).max(4) {
+            // 2^BITS + something below 2^k for assorted k
+            let k = 1 + c.below(2 * bits as usize + 70) as u32;
+            let extra = c.rnd(2 * L + 2) & mask(k);
+            over.push(&top + extra);
+            over.push(&top + BigUint::from(c.edgy_word()));
+        }
+        over.retain(|v| *v > max);
+        for v in over {
+            if c.done() {
+                return;
+            }
+            let canon = v.to_str_radix(radix);
+            let mut forms = vec![canon.clone(), format!("+00{}", canon), canon.to_uppercase()];
+            forms.push(with_underscores(c, &canon, 2));
+            for s in forms {
+                debug_assert_eq!(denote(&s, radix), Denoted::Value(v.clone()));
+                check!(c, call(|| res_u(Uint::<L>::from_str_radix_vartime(&s, radix))), Err("InputSize".to_string()); s, radix);
+                check!(c, call(|| res_u(<Uint<L> as num_traits::Num>::from_str_radix(&s, radix))), Err("InputSize".to_string()); s, radix);
+            }
+        }
+        // many more digits than fit
+        for d in ["1", "9", "z", "Z"] {
+            let ch = d.chars().next().unwrap();
+            let digit = if ch.to_digit(36).unwrap() < radix { d.to_string() } else { char::from_digit(radix - 1, 36).unwrap().to_string() };
+            for mult in [2usize, 5] {
+                let s = digit.repeat(mult * bits as usize + 3);
+                check!(c, call(|| res_u(Uint::<L>::from_str_radix_vartime(&s, radix))), Err("InputSize".to_string()); s, radix);
+                let s = format!("1{}", "0".repeat(mult * bits as usize));
+                check!(c, call(|| res_u(Uint::<L>::from_str_radix_vartime(&s, radix))), Err("InputSize".to_string()); s, radix);
+            }
+        }
+        // values that just fit, in every spelling
+        for v in [max.clone(), &max - 1u32, &p / &r, &p / &r - 1u32, &max - &r, pow2(bits - 1)] {
+            let canon = v.to_str_radix(radix);
+            let mut forms = spellings(c, &canon);
+            forms.push(format!("{}{}", "0".repeat(3 * bits as usize), canon));
+            forms.push(format!("+{}_{}", "0_0".repeat(bits as usize), canon));
+            for s in forms {
+                if c.done() {
+                    return;
+                }
+                check!(c, call(|| res_u(Uint::<L>::from_str_radix_vartime(&s, radix))), Ok(v.clone()); s, radix);
+            }
+        }
+    }
+}
+
+/// A string that is not a numeral is an invalid-digit error even when it is also too long for
+/// the type ("... and the empty/invalid-digit error if it is not a numeral").
+fn not_a_numeral_and_too_long<const L: usize>(c: &mut Ctx) {
+    let bits = 64 * L as u32;
+    for radix in [10u32, 16].into_iter().chain(2..=36u32) {
+        let big = (pow2(bits + 130) + c.rnd(L)).to_str_radix(radix);
+        let next_digit = char::from_digit(radix, 36).unwrap_or('{');
+        for bad in ['.', ' ', '-', '{', next_digit, '\u{e9}'] {
+            let n = big.len();
+            let strs = [
+                format!("{}{}", big, bad),
+                format!("{}{}", bad, big),
+                format!("{}{}{}", &big[..n / 2], bad, &big[n / 2..]),
+                format!("{}{}{}", &big[..n - 1], bad, &big[n - 1..]),
+                format!("{}{}{}", &big[..1], bad, &big[1..]),
+                format!("{}_", big),
+                format!("_{}", big),
+            ];
+            for s in strs {
+                if c.done() {
+                    return;
+                }
+                debug_assert_eq!(denote(&s, radix), Denoted::Invalid);
+                check!(c, call(|| res_u(Uint::<L>::from_str_radix_vartime(&s, radix))), Err("InvalidDigit".to_string()); s, radix);
+            }
+        }
+    }
+}
+
+/// Radix outside 2..=36: documented panic, whatever the input.
+fn bad_radix<const L: usize>(c: &mut Ctx) {
+    let vals = c.edges(L, 6);
+    for radix in [0u32, 1, 37, 38, 64, 256, u32::MAX] {
+        for s in ["", "0", "1", "10", "+1", "_", "zz"] {
+            must_panic!(c, call(|| res_u(Uint::<L>::from_str_radix_vartime(s, radix))); s, radix);
+            must_panic!(c, call(|| res_x(BoxedUint::from_str_radix_vartime(s, radix))); s, radix);
+            must_panic!(c, call(|| res_x(BoxedUint::from_str_radix_with_precision_vartime(s, radix, 64 * L as u32))); s, radix);
+        }
+        for a in &vals {
+            let x = bu::<L>(a);
+            must_panic!(c, call(|| x.to_string_radix_vartime(radix)); a, radix);
+            let y = bx(a, L);
+            must_panic!(c, call(|| y.to_string_radix_vartime(radix)); a, radix);
+        }
+    }
+}
+
+// ---------------------------------------------------------------- BoxedUint
+
+/// to_string_radix_vartime for a given limb count; from_str_radix_vartime parses every spelling.
+fn boxed_round_trip_limbs(c: &mut Ctx, nl: usize, step: usize, n_edges: usize, n_rnd: usize, all_spellings: bool) {
+    for radix in 2..=36u32 {
+        for a in radix_values(c, nl, radix, step, n_edges, n_rnd) {
+            if c.done() {
+                return;
+            }
+            let x = bx(&a, nl);
+            let canon = a.to_str_radix(radix);
+            check!(c, call(|| x.to_string_radix_vartime(radix)), canon.clone(); a, nl, radix);
+            let all = if all_spellings { spellings(c, &canon) } else { vec![canon.clone(), format!("+0_{}", canon.to_uppercase())] };
+            for s in all {
+                // (the numeral "0" is known to give a value without limbs: only its value is compared)
+                check!(c, call(|| res_x(BoxedUint::from_str_radix_vartime(&s, radix))), Ok(a.clone()); s, radix);
+                if !a.is_zero() {
+                    let re = call(|| BoxedUint::from_str_radix_vartime(&s, radix).ok().filter(|v| v.nlimbs() > 0).map(|v| v.to_string_radix_vartime(radix)));
+                    check!(c, re, Some(canon.clone()); s, radix);
+                }
+            }
+        }
+    }
+}
+
+fn boxed_round_trip_small(c: &mut Ctx) {
+    for nl in 1..=4usize {
+        let (e, r) = ((c.cap / 560).clamp(4, 16), (c.iters / 280).max(3));
+        boxed_round_trip_limbs(c, nl, 1, e, r, true);
+    }
+}
+
+fn boxed_round_trip_large(c: &mut Ctx) {
+    // around the 32-limb large-divisor threshold, its multiples, and the 128-limb stack buffer
+    for nl in [31usize, 32, 33, 34, 63, 64, 65, 96, 128, 129, 140] {
+        boxed_round_trip_limbs(c, nl, 9973, 0, 1, false);
+    }
+}
+
+fn boxed_grammar(c: &mut Ctx) {
+    let fixed = [
+        "", "+", "_", "+_", "__", "++", "-1", "++1", "1+", "_1", "1_", "+_1", "+1_", "0_", "_0", "0", "+0", "00", "0_0", "1__2", "1_2", "1 ",
+        " 1", "1.0", "0x10", "\u{e9}", "1\u{e9}", "z", "Z", "a", "A", "9", "/", ":", "@", "[", "`", "{", "+z", "0z", "10", "+11",
+    ];
+    for radix in 2..=36u32 {
+        let mut strs: Vec<String> = fixed.iter().map(|s| s.to_string()).collect();
+        for b in 0x20u8..0x7f {
+            strs.push(format!("1{}", b as char));
+            strs.push(format!("{}0", b as char));
+        }
+        for s in strs {
+            if c.done() {
+                return;
+            }
+            // unbounded target: every numeral fits
+            let exp = expect_fixed(&s, radix, u32::MAX);
+            check!(c, call(|| res_x(BoxedUint::from_str_radix_vartime(&s, radix))), exp.clone(); s, radix);
+            for prec in [0u32, 1, 5, 6, 7, 63, 64, 65, 128] {
+                check!(c, call(|| res_xp(BoxedUint::from_str_radix_with_precision_vartime(&s, radix, prec))), expect_prec(&s, radix, prec); s, radix, prec);
+            }
+        }
+    }
+}
+
+/// from_str_radix_with_precision_vartime: an error exactly when the value needs more bits than
+/// the precision; the result has the requested precision rounded up to whole limbs.
+fn boxed_with_precision(c: &mut Ctx) {
+    for radix in 2..=36u32 {
+        for nl in 1..=4usize {
+            let (e, r) = ((c.cap / 1200).clamp(3, 8), (c.iters / 600).max(2));
+            for a in radix_values(c, nl, radix, 5, e, r) {
+                let canon = a.to_str_radix(radix);
+                let bits = a.bits() as u32;
+                let mut precs = vec![0, 1, bits.saturating_sub(1), bits, bits + 1, bits.saturating_sub(64), bits + 64];
+                precs.extend([bits / 64 * 64, bits.div_ceil(64) * 64, bits.div_ceil(64) * 64 + 1, (bits.div_ceil(64) * 64).saturating_sub(1), 64 * nl as u32, 64 * nl as u32 + 1, 520]);
+                precs.sort();
+                precs.dedup();
+                let under = with_underscores(c, &canon.to_uppercase(), 2);
+                for prec in precs {
+                    for s in [canon.clone(), format!("+00{}", under)] {
+                        if c.done() {
+                            return;
+                        }
+                        let exp = expect_prec(&s, radix, prec);
+                        debug_assert_eq!(exp.is_ok(), bits <= prec);
+                        check!(c, call(|| res_xp(BoxedUint::from_str_radix_with_precision_vartime(&s, radix, prec))), exp; s, radix, prec);
+                    }
+                }
+            }
+        }
+    }
+}
+
+// ---------------------------------------------------------------- table
 
 pub fn cases() -> Vec<Case> {
-    Vec::new()
+    let mut v = Vec::new();
+    ucases!(v, "to_string_radix_vartime canonical / from_str_radix_vartime / Num::from_str_radix round trip", round_trip; 1, 2, 3, 4, 8, 16, 33, 40);
+    ucases!(v, "from_str_radix_vartime grammar ('+', '_', case, empty, invalid digits)", grammar; 1, 2, 3, 4, 16);
+    ucases!(v, "from_str_radix_vartime overflow boundary", overflow; 1, 2, 3, 4, 8, 16);
+    ucases!(v, "from_str_radix_vartime not a numeral and too long", not_a_numeral_and_too_long; 1, 2, 4);
+    ucases!(v, "radix outside 2..=36 (Uint and BoxedUint, parse and format)", bad_radix; 1, 2, 4);
+    case!(v, "BoxedUint::to_string_radix_vartime / from_str_radix_vartime round trip 1..=4 limbs", boxed_round_trip_small);
+    case!(v, "BoxedUint::to_string_radix_vartime / from_str_radix_vartime round trip 31..=140 limbs", boxed_round_trip_large);
+    case!(v, "BoxedUint::from_str_radix_vartime / with_precision grammar", boxed_grammar);
+    case!(v, "BoxedUint::from_str_radix_with_precision_vartime precision boundary", boxed_with_precision);
+    v
 }
